@@ -173,7 +173,7 @@ mut("int_literal_base_prefixes", ["C01"], "parser.parseInt/post/integer-literal-
 mut("int_list_elements_32bit", ["C01"], "parser.parseList.$1/inv/loop2[elements-are-decimal-int64",
     [("parser.go", "\t\t\t\tv, err := strconv.ParseInt(s, 10, 64)\n\t\t\t\tif err != nil {\n\t\t\t\t\treturn nil, err\n\t\t\t\t}\n\t\t\t\tints = append(ints, v)",
       "\t\t\t\tv, err := strconv.ParseInt(s, 10, 32)\n\t\t\t\tif err != nil {\n\t\t\t\t\treturn nil, err\n\t\t\t\t}\n\t\t\t\tints = append(ints, v)")], "list elements beyond int32 are rejected")
-mut("lexer_accepts_hex_integers", ["C01"], "parser.lex/",
+mut("lexer_accepts_hex_integers", ["C01"], "parser.lex.isValidInt/",
     [("parser.go", "\t\t\t_, err := strconv.ParseInt(s, 10, 64)\n\t\t\treturn err == nil", "\t\t\t_, err := strconv.ParseInt(s, 0, 64)\n\t\t\treturn err == nil")], "0x10 becomes an integer token that parseInt then rejects")
 # ---- probes of mechanisms that only the bounded tier covers
 mut("reduce_nesting_merges_any_bool_operator", ["C02"], "bnd/",
